@@ -714,4 +714,411 @@ Proof.
   exists (x, bs), []. split; [reflexivity|]. unfold b_mem, b_end. cbn [fst snd]. split; [lia|]. intros r [<-|[]]. left. cbn [fst snd]. lia.
 Qed.
 
+(* ---------- progress: node requests never reach an assertion of the implementation ---------- *)
+(* what a list must offer beyond refinement: a non-empty list hands out a node; memory that no range given to the list touches
+   can be inserted; usable_size is monotone *)
+Hypothesis gprog_alloc : forall g s, GR g s -> 0 < gfree g -> exists g' x, gstep g UAlloc = Some (g', Some x).
+Hypothesis gprog_ins : forall g rs l m size, GR g {| us_rs := rs; us_l := l |} -> 0 < size ->
+  (forall x, In x rs -> 0 < snd (snd x) /\ (fst (snd x) + snd (snd x) <= m \/ m + size <= fst (snd x))) ->
+  exists g', gstep g (UIns m size) = Some (g', None).
+Hypothesis gusable_mono_ns : forall ns ns' size, 0 <= size < 2^64 -> 0 < ns <= ns' -> ns' <= gusable ns' size -> ns <= gusable ns size.
+Hypothesis gusable_mono_size : forall ns s1 s2, 0 <= s1 <= s2 -> s2 < 2^64 -> ns <= gusable ns s1 -> ns <= gusable ns s2.
+
+(* what the constructor establishes beyond the relation, and every operation keeps *)
+Definition Ext (s : cpool) : Prop :=
+  Forall (fun g => gns g <= cc_max _ s) (cc_lists _ s) /\ 0 < cc_max _ s /\ (cc_max _ s <= gusable (cc_max _ s) (cc_defcap _ s) /\ cc_defcap _ s < 2^64) /\
+  (forall size, 0 < size <= cc_max _ s -> size <= bkt size /\ c_find (bkt size) (cc_lists _ s) <> None) /\
+  (1 <= length (cc_lists _ s))%nat /\
+  match ar_kind (cc_ar _ s) with
+  | AFixed => ar_next (cc_ar _ s) = 0
+  | _ => forall b rest, ar_used (cc_ar _ s) = b :: rest -> snd b <= ar_next (cc_ar _ s)
+  end.
+
+Lemma c_find_in ns gs g : c_find ns gs = Some g -> In g gs /\ gns g = ns.
+Proof.
+  induction gs as [|g0 tl IH]; cbn; [discriminate|]. destruct (Z.eqb_spec (gns g0) ns) as [E|E]; intros H.
+  - inversion H; subst g0. split; [left; reflexivity|exact E].
+  - destruct (IH H) as [H1 H2]. split; [right; exact H1|exact H2].
+Qed.
+Lemma c_find_set ns gs g g' : c_find ns gs = Some g -> gns g' = ns -> c_find ns (c_set g' gs) = Some g'.
+Proof.
+  intros Hf Eg. induction gs as [|g0 tl IH]; cbn in *; [discriminate|]. rewrite Eg. destruct (Z.eqb_spec (gns g0) ns) as [E|E].
+  - cbn. rewrite Eg, Z.eqb_refl. reflexivity.
+  - cbn. destruct (Z.eqb_spec (gns g0) ns); [contradiction|]. apply IH. exact Hf.
+Qed.
+Lemma c_find_set_other ns ns' gs g' : gns g' = ns' -> ns <> ns' -> c_find ns (c_set g' gs) = c_find ns gs.
+Proof.
+  intros Eg Hne. induction gs as [|g0 tl IH]; cbn; [reflexivity|]. rewrite Eg. destruct (Z.eqb_spec (gns g0) ns') as [E|E]; cbn.
+  - rewrite Eg. destruct (Z.eqb_spec ns' ns); [congruence|]. destruct (Z.eqb_spec (gns g0) ns); [congruence|reflexivity].
+  - destruct (gns g0 =? ns); [reflexivity|exact IH].
+Qed.
+Lemma c_find_set_some ns gs g' g : c_find (gns g') gs = Some g -> c_find ns (c_set g' gs) <> None <-> c_find ns gs <> None.
+Proof.
+  intros Hf. destruct (Z.eq_dec ns (gns g')) as [->|Hne].
+  - rewrite (c_find_set _ _ _ _ Hf eq_refl), Hf. split; discriminate.
+  - rewrite (c_find_set_other ns (gns g') gs g' eq_refl Hne). reflexivity.
+Qed.
+
+(* the spec sees no range twice: every range of a related state is positive (Inv) *)
+Lemma ranges_pos sp : Inv sp -> forall x, In x (a_ranges sp) -> 0 < snd (snd x).
+Proof. intros Hinv x Hx. pose proof (i_pos _ Hinv) as H. rewrite Forall_forall in H. apply H. exact Hx. Qed.
+
+(* pool.insert of reserved memory succeeds and leaves the list with a node *)
+Lemma insert_progress (s : cpool) sp ns m size g : CPR s sp -> Reserved s sp m size -> c_find ns (cc_lists _ s) = Some g ->
+  ns <= gusable ns size ->
+  exists s' evs, cc_insert _ gns gstep gusable s ns m size = Some (s', evs) /\
+    exists n', cc_nfree _ gns gfree s' ns = Some n' /\ 0 < n'.
+Proof.
+  intros Hcpr Hres Hf Hus. pose proof Hcpr as (Hinv & HL & _). destruct (find_rel _ _ _ _ _ HL Hf) as (l & Hfl & Hgr & Eg).
+  pose proof (GR_pos _ _ Hgr) as Hpos. destruct (gusable_nodes ns m size ltac:(lia) Hus) as [Hnodes Hsize].
+  destruct Hres as (b & rest & Hb & Hbm & Htop & Hal & Hdis).
+  assert (Hfr : Fresh s sp) by apply Hcpr. destruct Hfr as (b' & rest' & Hb' & Htb & _). rewrite Hb in Hb'. inversion Hb'; subst b' rest'.
+  destruct (gprog_ins g (a_ranges sp) l m size Hgr Hsize) as (g' & Hs).
+  { intros x Hx. split; [apply (ranges_pos _ Hinv); exact Hx|]. destruct (Hdis x Hx); [left; assumption|right; lia]. }
+  assert (Hins : cc_insert _ gns gstep gusable s ns m size = Some (cc_with _ s (cc_ar _ s) (cc_top _ s) (c_set g' (cc_lists _ s)), [EIns ns m size])).
+  { unfold cc_insert. destruct (Z.leb_spec ns (gusable ns size)); [|lia]. unfold cc_list_step. rewrite Hf, Hs. reflexivity. }
+  eexists _, _. split; [exact Hins|].
+  pose proof (nodup_gns _ _ Hcpr) as Hnd.
+  destruct (list_step_rel _ _ _ _ _ _ _ _ HL Hnd Hf Hs) as (l1 & u' & Hfl1 & Hu & _ & _ & Hk & Enf & Enf' & _).
+  rewrite Hfl in Hfl1. inversion Hfl1; subst l1. cbn [us_step us_l us_rs] in Hu. inversion Hu; subst u'. cbn [us_l l_nfree] in Enf'.
+  unfold cc_nfree. cbn [cc_with cc_lists]. rewrite (c_find_set _ _ _ _ Hf (eq_trans (gstep_ns _ _ _ _ Hs) Eg)). eexists. split; [reflexivity|].
+  rewrite <- Enf'. destruct (GR_list _ _ Hgr) as (Hk0 & Hns0 & _). cbn [us_l] in Hk0, Hns0. rewrite Hk0, Hns0, Eg.
+  assert (0 <= l_nfree l).
+  { destruct (find_list_In _ _ _ Hfl) as [Hin _]. destruct (capacity_is_exact sp l Hinv Hin) as (_ & H0 & _). exact H0. }
+  lia.
+Qed.
+
+Lemma take_progress (s : cpool) sp ns n : CPR s sp -> cc_nfree _ gns gfree s ns = Some n -> 0 < n ->
+  exists s' x, cc_take_node _ gns gstep s ns = Some (s', x).
+Proof.
+  intros (Hinv & HL & _) Hn Hpos. unfold cc_nfree in Hn. destruct (c_find ns (cc_lists _ s)) as [g|] eqn:Hf; [|discriminate]. inversion Hn; subst n.
+  destruct (find_rel _ _ _ _ _ HL Hf) as (l & _ & Hgr & _). destruct (gprog_alloc _ _ Hgr Hpos) as (g' & x & Hs).
+  unfold cc_take_node, cc_list_step. rewrite Hf, Hs. eexists _, _. reflexivity.
+Qed.
+
+(* a reservation of the default capacity fits into a fresh 16-aligned block that is at least as large as the current one *)
+Lemma defcap_fits (s : cpool) b rest x nx : ar_used (cc_ar _ s) = b :: rest -> 0 <= cc_fence _ s -> (1 <= length (cc_lists _ s))%nat ->
+  0 < cc_defcap _ s -> snd b <= nx -> x mod 16 = 0 -> 0 < x ->
+  fs_alloc (cc_fence _ s) (x + 16) (x + nx) (cc_defcap _ s) 16 <> None.
+Proof.
+  intros Hb Hf Hlen Hpos Hnx Hx Hx0. rewrite fs_alloc_none_iff. intros [H0|Hbig].
+  - lia.
+  - unfold cc_defcap in *. rewrite Hb in *. unfold b_usable, cc_overhead in *. destruct chdr_eq as (_ & Eh16 & Emax). rewrite Emax, Eh16 in *.
+    set (n := Z.of_nat (length (cc_lists _ s))) in *. assert (Hn : 1 <= n) by (unfold n; lia).
+    pose proof (align_off_bounds (x + 16 + cc_fence _ s) 16 ltac:(lia)) as Hob.
+    destruct (Z.eqb_spec (cc_fence _ s) 0) as [E0|E0].
+    + rewrite E0 in *. assert (Hoff : align_off (x + 16 + 0) 16 = 0).
+      { unfold align_off. replace (x + 16 + 0) with (x + 1 * 16) by lia. rewrite Z.mod_add, Hx by lia. reflexivity. }
+      rewrite Hoff in Hbig. destruct (Z.ltb_spec 0 (snd b - 16)) as [Hu|Hu].
+      * assert ((snd b - 16 - 0) / n <= snd b - 16) by (apply Z.div_le_upper_bound; nia). lia.
+      * rewrite Zdiv_0_l in Hpos. lia.
+    + destruct (Z.ltb_spec (2 * cc_fence _ s + 16) (snd b - 16)) as [Hu|Hu].
+      * assert ((snd b - 16 - (2 * cc_fence _ s + 16)) / n <= snd b - 16 - (2 * cc_fence _ s + 16)) by (apply Z.div_le_upper_bound; nia). lia.
+      * rewrite Zdiv_0_l in Hpos. lia.
+Qed.
+
+Lemma c_find_keys ns : forall l1 l2, map gns l1 = map gns l2 -> (c_find ns l1 <> None <-> c_find ns l2 <> None).
+Proof.
+  induction l1 as [|a l1 IH]; intros [|b l2] E; cbn in *; try discriminate; [tauto|].
+  inversion E as [[Ea0 Et]]. rewrite Ea0. destruct (gns b =? ns); [split; discriminate|apply IH; exact Et].
+Qed.
+
+(* Ext is about the lists' node sizes, the maximum, the default capacity and the arena's next block size *)
+Lemma ext_same (s s' : cpool) : Ext s -> cc_max _ s' = cc_max _ s -> cc_fence _ s' = cc_fence _ s -> cc_ar _ s' = cc_ar _ s ->
+  map gns (cc_lists _ s') = map gns (cc_lists _ s) -> Ext s'.
+Proof.
+  intros (H1 & H2 & H3 & H4 & H5 & H6) Em Ef Ea El.
+  assert (Elen : length (cc_lists _ s') = length (cc_lists _ s)) by (rewrite <- (map_length gns), El, map_length; reflexivity).
+  assert (Edef : cc_defcap _ s' = cc_defcap _ s) by (unfold cc_defcap, cc_overhead; rewrite Ea, Ef, Elen; reflexivity).
+  assert (Efind : forall ns, c_find ns (cc_lists _ s') <> None <-> c_find ns (cc_lists _ s) <> None) by (intros ns; apply c_find_keys; exact El).
+  unfold Ext. rewrite Em, Edef, Ea, Elen. split.
+  { rewrite Forall_forall in *. intros g Hg. assert (Hin : In (gns g) (map gns (cc_lists _ s))) by (rewrite <- El; apply in_map; exact Hg).
+    apply in_map_iff in Hin as (g0 & E0 & Hg0). rewrite <- E0. apply H1. exact Hg0. }
+  split; [exact H2|]. split; [exact H3|]. split; [|split; [exact H5|exact H6]].
+  intros size Hs. destruct (H4 size Hs) as [Ha Hb]. split; [exact Ha|]. apply Efind. exact Hb.
+Qed.
+
+Lemma c_set_keys g' gs g : c_find (gns g') gs = Some g -> map gns (c_set g' gs) = map gns gs.
+Proof.
+  intros Hf. induction gs as [|g0 tl IH]; cbn in *; [reflexivity|]. destruct (Z.eqb_spec (gns g0) (gns g')) as [E|E]; cbn; [rewrite E; reflexivity|].
+  rewrite IH; [reflexivity|exact Hf].
+Qed.
+
+Lemma insert_keys (s : cpool) ns m size (s' : cpool) evs : cc_insert _ gns gstep gusable s ns m size = Some (s', evs) ->
+  map gns (cc_lists _ s') = map gns (cc_lists _ s) /\ cc_ar _ s' = cc_ar _ s /\ cc_fence _ s' = cc_fence _ s /\ cc_max _ s' = cc_max _ s /\ cc_top _ s' = cc_top _ s.
+Proof.
+  unfold cc_insert, cc_list_step. destruct (_ <=? _); [|discriminate]. destruct (c_find ns (cc_lists _ s)) as [g|] eqn:Hf; [|discriminate].
+  destruct (gstep g (UIns m size)) as [[g' res]|] eqn:Hs; [|discriminate]. intros H; inversion H; subst s' evs. cbn [cc_with cc_lists cc_ar cc_fence cc_max cc_top].
+  split; [|repeat split]. apply (c_set_keys g' _ g). rewrite (gstep_ns _ _ _ _ Hs). destruct (c_find_in _ _ _ Hf) as [_ E]. rewrite E. exact Hf.
+Qed.
+
+Lemma insert_rest_progress (s : cpool) sp ns g : CPR s sp -> c_find ns (cc_lists _ s) = Some g ->
+  exists s1 ev1, cc_insert_rest _ gns gstep gusable s ns = Some (s1, ev1) /\
+    map gns (cc_lists _ s1) = map gns (cc_lists _ s).
+Proof.
+  intros Hcpr Hf. unfold cc_insert_rest. destruct (cc_end _ s - cc_top _ s =? 0); [eexists _, _; split; reflexivity|].
+  destruct chdr_eq as (Eh & Eh16 & Emax). rewrite Emax.
+  destruct ((align_off (cc_top _ s) 16 <? cc_end _ s - cc_top _ s) && (ns <=? gusable ns (cc_end _ s - cc_top _ s - align_off (cc_top _ s) 16))) eqn:Hcond;
+    [|eexists _, _; split; reflexivity].
+  apply andb_true_iff in Hcond as [Hoff Hus]. apply Z.ltb_lt in Hoff. apply Z.leb_le in Hus.
+  pose proof (align_off_bounds (cc_top _ s) 16 ltac:(lia)) as Hob. pose proof (align_off_aligns (cc_top _ s) 16 ltac:(lia)) as Hoa.
+  set (off := align_off (cc_top _ s) 16) in *.
+  assert (Hcpr2 : CPR (cc_with _ s (cc_ar _ s) (cc_top _ s + (cc_end _ s - cc_top _ s)) (cc_lists _ s)) sp) by (apply cpr_top; [assumption|lia]).
+  assert (Hres : Reserved (cc_with _ s (cc_ar _ s) (cc_top _ s + (cc_end _ s - cc_top _ s)) (cc_lists _ s)) sp (cc_top _ s + off) (cc_end _ s - cc_top _ s - off)).
+  { destruct Hcpr as (Hinv & HL & Hsm & Hheld & Hc & Hcd & (b & rest & Hb & Htb & Hfresh) & Hfence).
+    exists b, rest. cbn [cc_with cc_ar cc_top]. split; [exact Hb|]. split; [lia|]. split; [lia|]. split; [exact Hoa|]. intros x Hx. destruct (Hfresh x Hx); [left; lia|right; assumption]. }
+  destruct (insert_progress _ sp ns _ _ g Hcpr2 Hres Hf Hus) as (s1 & ev1 & Hins & _).
+  exists s1, ev1. split; [exact Hins|]. destruct (insert_keys _ _ _ _ _ _ Hins) as (Hk & _). exact Hk.
+Qed.
+
+(* what a successful allocate_block() does to the arena *)
+Lemma new_block_ok (s : cpool) answer (s2 : cpool) evs : ar_cache (cc_ar _ s) = [] -> cc_new_block _ s answer = (s2, true, evs) ->
+  exists x, answer = Some x /\ ar_used (cc_ar _ s2) = (x, ar_next (cc_ar _ s)) :: ar_used (cc_ar _ s) /\ cc_top _ s2 = x + 16 /\
+    cc_lists _ s2 = cc_lists _ s /\ cc_fence _ s2 = cc_fence _ s /\ cc_max _ s2 = cc_max _ s /\ ar_kind (cc_ar _ s2) = ar_kind (cc_ar _ s) /\
+    ar_next (cc_ar _ s2) = (match ar_kind (cc_ar _ s) with AGrow => 2 * ar_next (cc_ar _ s) | AFixed => 0 | AConst => ar_next (cc_ar _ s) end) /\
+    (ar_kind (cc_ar _ s) = AFixed -> ar_next (cc_ar _ s) <> 0).
+Proof.
+  intros Hc Hnb. unfold cc_new_block, astep in Hnb. rewrite Hc in Hnb.
+  destruct (ar_kind (cc_ar _ s)) eqn:Hk; [| |]; try (destruct (ar_next (cc_ar _ s) =? 0) eqn:Hz; [inversion Hnb|]); (destruct answer as [x|]; [|inversion Hnb]);
+    inversion Hnb; subst s2 evs; exists x; cbn [cc_with cc_ar cc_top cc_lists cc_fence cc_max ar_set ar_used ar_kind ar_next b_mem fst]; unfold hdr;
+    repeat split; try reflexivity; try assumption; try discriminate.
+  intros _ E. rewrite E in Hz. discriminate.
+Qed.
+
+Lemma ext_defcap_pos (s : cpool) : Ext s -> 0 < cc_defcap _ s.
+Proof. intros (_ & H2 & [H3 _] & _). destruct (gusable_nodes _ 0 _ H2 H3) as [_ H]. exact H. Qed.
+
+Lemma ext_list_usable (s : cpool) sp ns g : CPR s sp -> Ext s -> c_find ns (cc_lists _ s) = Some g -> ns <= gusable ns (cc_defcap _ s).
+Proof.
+  intros (_ & HL & _) (H1 & H2 & [H3 H3b] & _) Hf. destruct (c_find_in _ _ _ Hf) as [Hin E]. rewrite Forall_forall in H1. specialize (H1 g Hin).
+  destruct (find_rel _ _ _ _ _ HL Hf) as (l & _ & Hgr & _). pose proof (GR_pos _ _ Hgr). destruct (gusable_nodes _ 0 _ H2 H3) as [_ Hd].
+  apply (gusable_mono_ns ns (cc_max _ s)); [lia|lia|exact H3].
+Qed.
+
+(* Ext after a new block: the default capacity does not shrink, the next block is at least as large again *)
+Lemma ext_new_block (s s2 : cpool) x : Ext s ->
+  ar_used (cc_ar _ s2) = (x, ar_next (cc_ar _ s)) :: ar_used (cc_ar _ s) -> map gns (cc_lists _ s2) = map gns (cc_lists _ s) ->
+  cc_fence _ s2 = cc_fence _ s -> cc_max _ s2 = cc_max _ s -> ar_kind (cc_ar _ s2) = ar_kind (cc_ar _ s) ->
+  ar_next (cc_ar _ s2) = (match ar_kind (cc_ar _ s) with AGrow => 2 * ar_next (cc_ar _ s) | AFixed => 0 | AConst => ar_next (cc_ar _ s) end) ->
+  (ar_kind (cc_ar _ s) = AFixed -> ar_next (cc_ar _ s) <> 0) -> (exists b rest, ar_used (cc_ar _ s) = b :: rest) -> 0 <= ar_next (cc_ar _ s) < 2^64 -> 0 <= cc_fence _ s -> Ext s2.
+Proof.
+  intros (H1 & H2 & [H3 H3b] & H4 & H5 & H6) Hu El Ef Em Ek En Hfix (b & rest & Hb) Hnn Hfe0.
+  assert (Elen : length (cc_lists _ s2) = length (cc_lists _ s)) by (rewrite <- (map_length gns), El, map_length; reflexivity).
+  assert (Hkind : ar_kind (cc_ar _ s) <> AFixed) by (intros E; rewrite E in H6; exact (Hfix E H6)).
+  assert (Hle : snd b <= ar_next (cc_ar _ s)) by (destruct (ar_kind (cc_ar _ s)); [apply (H6 b rest Hb)|contradiction|apply (H6 b rest Hb)]).
+  assert (Hdef : cc_defcap _ s <= cc_defcap _ s2).
+  { unfold cc_defcap, cc_overhead. rewrite Hu, Hb, Ef, Elen. unfold b_usable. cbn [snd].
+    set (ov := if cc_fence _ s =? 0 then 0 else 2 * cc_fence _ s + maxalZ). set (n := Z.of_nat (length (cc_lists _ s))). assert (1 <= n) by (unfold n; lia).
+    apply Z.div_le_mono; [lia|]. destruct (Z.ltb_spec ov (snd b - hdr)), (Z.ltb_spec ov (ar_next (cc_ar _ s) - hdr)); lia. }
+  unfold Ext. rewrite Em, Elen. split.
+  { rewrite Forall_forall in *. intros g Hg. assert (Hin : In (gns g) (map gns (cc_lists _ s))) by (rewrite <- El; apply in_map; exact Hg).
+    apply in_map_iff in Hin as (g0 & E0 & Hg0). rewrite <- E0. apply H1. exact Hg0. }
+  split; [exact H2|]. assert (Hd2 : cc_defcap _ s2 < 2^64).
+  { unfold cc_defcap, cc_overhead. rewrite Hu, Ef, Elen. unfold b_usable. cbn [snd]. set (n := Z.of_nat (length (cc_lists _ s))). assert (1 <= n) by (unfold n; lia).
+    destruct chdr_eq as (_ & Eh16 & Emax). rewrite Emax, Eh16. set (ov := if cc_fence _ s =? 0 then 0 else 2 * cc_fence _ s + 16).
+    assert (0 <= ov) by (unfold ov; destruct (Z.eqb_spec (cc_fence _ s) 0); lia).
+    destruct (Z.ltb_spec ov (ar_next (cc_ar _ s) - 16)); [|rewrite Zdiv_0_l; lia].
+    assert ((ar_next (cc_ar _ s) - 16 - ov) / n <= ar_next (cc_ar _ s) - 16 - ov) by (apply Z.div_le_upper_bound; nia). lia. }
+  destruct (gusable_nodes _ 0 _ H2 H3) as [_ Hd0].
+  split; [split; [apply (gusable_mono_size _ (cc_defcap _ s) _); [lia|exact Hd2|exact H3]|exact Hd2]|]. split.
+  { intros size Hs. destruct (H4 size Hs) as [Ha Hbb]. split; [exact Ha|]. apply (c_find_keys _ _ _ El). exact Hbb. }
+  split; [exact H5|]. rewrite Ek, En. destruct (ar_kind (cc_ar _ s)); [|contradiction|]; intros b0 rest0 E0; rewrite Hu in E0; inversion E0; subst b0 rest0; cbn [snd]; lia.
+Qed.
+
+(* allocate_node's growth -- reserve_memory(pool, def_capacity()) and insert -- always comes back, and with a node when it succeeds *)
+Lemma grow_progress (s : cpool) sp ns g answer : CPR s sp -> Ext s -> c_find ns (cc_lists _ s) = Some g ->
+  (forall addr, answer = Some addr -> CWB sp addr (ar_next (cc_ar _ s))) -> ar_next (cc_ar _ s) < 2^64 ->
+  exists s2 ok evs, cc_grow _ gns gstep gusable s ns (cc_defcap _ s) answer = Some (s2, ok, evs) /\ Ext s2 /\
+    (ok = true -> exists n', cc_nfree _ gns gfree s2 ns = Some n' /\ 0 < n').
+Proof.
+  intros Hcpr Hext Hf Hwb Hn64. pose proof (ext_list_usable _ _ _ _ Hcpr Hext Hf) as Hus. pose proof (ext_defcap_pos _ Hext) as Hdpos.
+  destruct chdr_eq as (Eh & Eh16 & Emax). set (cap := cc_defcap _ s) in *.
+  unfold cc_grow, cc_reserve.
+  destruct (fs_alloc (cc_fence _ s) (cc_top _ s) (cc_end _ s) cap maxalZ) as [[m top']|] eqn:Hfs.
+  - destruct (fs_reserved _ _ _ _ _ Hcpr (Z.lt_le_incl _ _ Hdpos) Hfs) as [H1 H2].
+    destruct (insert_progress _ sp ns m cap g H1 H2 Hf Hus) as (s2 & ev2 & Hins & Hn). rewrite Hins.
+    eexists _, _, _. split; [reflexivity|]. split; [|intros _; exact Hn].
+    destruct (insert_keys _ _ _ _ _ _ Hins) as (Hk & Ha & Hfe & Hm & _). apply (ext_same s); [exact Hext|exact Hm|exact Hfe|exact Ha|exact Hk].
+  - destruct (insert_rest_progress _ _ _ _ Hcpr Hf) as (sa & ev1 & Hir & Hka). rewrite Hir.
+    destruct (insert_rest_refines _ _ _ _ _ Hcpr Hir) as (spa & Ha & Hca & Hha & Hara & Hfa & Hma & _ & Hla).
+    assert (Hexta : Ext sa) by (apply (ext_same s); assumption).
+    destruct (cc_new_block _ sa answer) as [[sb ok] ev2] eqn:Hnb.
+    assert (Hwb' : forall addr, answer = Some addr -> CWB spa addr (ar_next (cc_ar _ sa))) by (intros addr E; unfold CWB; rewrite Hha, Hara; apply Hwb; exact E).
+    destruct (new_block_refines _ _ _ _ _ _ Hca Hwb' Hnb) as (spb & Hb & Hcb & Hfb & Hmb & Hlb & _).
+    destruct ok.
+    2:{ eexists _, _, _. split; [reflexivity|]. split; [|discriminate].
+        apply (ext_same sa); [exact Hexta|exact Hmb|exact Hfb| |rewrite Hlb; reflexivity].
+        (* a refused block leaves the arena as it was *)
+        clear - Hnb Hca. destruct Hca as (_ & _ & _ & _ & Hc & _). unfold cc_new_block, astep in Hnb. rewrite Hc in Hnb.
+        destruct (ar_kind (cc_ar _ sa)); try (destruct (ar_next (cc_ar _ sa) =? 0)); destruct answer; inversion Hnb; reflexivity. }
+    assert (Hcache : ar_cache (cc_ar _ sa) = []) by apply Hca.
+    destruct (new_block_ok _ _ _ _ Hcache Hnb) as (x & -> & Hu & Htop & Hl2 & Hf2 & Hm2 & Hk2 & Hn2 & Hfix).
+    pose proof (Hwb x eq_refl) as Hw. unfold CWB in Hw. apply andb_true_iff in Hw as [Hw _]. apply andb_true_iff in Hw as [Hw Hw3]. apply andb_true_iff in Hw as [Hw1 Hw2].
+    apply Z.ltb_lt in Hw1, Hw2. apply Z.eqb_eq in Hw3. rewrite Emax in Hw3.
+    assert (Hfr : Fresh s sp) by apply Hcpr. destruct Hfr as (b & rest & Hbu & _ & _).
+    assert (Hext0 : Ext s) by exact Hext. destruct Hext0 as (_ & _ & _ & _ & Hlen & Hnext).
+    assert (Hle : snd b <= ar_next (cc_ar _ s)).
+    { rewrite Hara in Hfix. destruct (ar_kind (cc_ar _ s)) eqn:Hk; [apply (Hnext b rest Hbu)|exfalso; apply (Hfix eq_refl); exact Hnext|apply (Hnext b rest Hbu)]. }
+    assert (Hfence : 0 <= cc_fence _ s) by apply Hcpr.
+    pose proof (defcap_fits s b rest x (ar_next (cc_ar _ s)) Hbu Hfence Hlen Hdpos Hle Hw3 Hw1) as Hfit.
+    assert (Eend : cc_end _ sb = x + ar_next (cc_ar _ s)) by (unfold cc_end; rewrite Hu, Hara; reflexivity).
+    rewrite Hf2, Hfa, Htop, Eend, Emax. fold cap in Hfit.
+    destruct (fs_alloc (cc_fence _ s) (x + 16) (x + ar_next (cc_ar _ s)) cap 16) as [[m top']|] eqn:Hfs2; [|contradiction].
+    assert (Hfs2' : fs_alloc (cc_fence _ sb) (cc_top _ sb) (cc_end _ sb) cap maxalZ = Some (m, top')) by (rewrite Hf2, Hfa, Htop, Eend, Emax; exact Hfs2).
+    destruct (fs_reserved _ _ _ _ _ Hcb (Z.lt_le_incl _ _ Hdpos) Hfs2') as [H1 H2].
+    assert (Hfb' : exists gb, c_find ns (cc_lists _ sb) = Some gb).
+    { rewrite Hl2. destruct (c_find ns (cc_lists _ sa)) as [gb|] eqn:E; [exists gb; reflexivity|]. exfalso.
+      assert (Hne : c_find ns (cc_lists _ s) <> None) by (rewrite Hf; discriminate). apply (proj2 (c_find_keys ns _ _ Hka)) in Hne. contradiction. }
+    destruct Hfb' as (gb & Hfb').
+    assert (Hextb : Ext sb).
+    { apply (ext_new_block sa sb x Hexta); try assumption; [rewrite Hl2; reflexivity|exists b, rest; rewrite Hara; exact Hbu|rewrite Hara; lia|rewrite Hfa; exact Hfence]. }
+    assert (Husb : ns <= gusable ns cap) by exact Hus.
+    destruct (insert_progress _ spb ns m cap gb H1 H2 Hfb' Husb) as (s2 & ev3 & Hins & Hn). rewrite Hins.
+    eexists _, _, _. split; [reflexivity|]. split; [|intros _; exact Hn].
+    destruct (insert_keys _ _ _ _ _ _ Hins) as (Hk & Ha2 & Hfe & Hm & _). apply (ext_same sb); [exact Hextb|exact Hm|exact Hfe|exact Ha2|exact Hk].
+Qed.
+
+(* ---------- node requests are always described ---------- *)
+Theorem alloc_node_progress (s : cpool) sp size answer : CPR s sp -> Ext s -> 0 < size <= cc_max _ s ->
+  (forall addr, answer = Some addr -> CWB sp addr (ar_next (cc_ar _ s))) -> ar_next (cc_ar _ s) < 2^64 ->
+  exists s' r evs, cc_alloc_node _ gns gfree gstep bkt gusable s size answer = Some (s', r, evs) /\ Ext s'.
+Proof.
+  intros Hcpr Hext Hsize Hwb Hn64. pose proof Hext as (_ & _ & _ & H4 & _). destruct (H4 size Hsize) as [Hge Hfind].
+  unfold cc_alloc_node.
+  assert (Hg : (size <=? 0) || (cc_max _ s <? size) || (bkt size <? size) = false).
+  { apply orb_false_iff. split; [apply orb_false_iff; split|]; [apply Z.leb_gt|apply Z.ltb_ge|apply Z.ltb_ge]; lia. }
+  rewrite Hg. set (ns := bkt size) in *. destruct (c_find ns (cc_lists _ s)) as [g|] eqn:Hf; [|contradiction].
+  unfold cc_nfree at 1. rewrite Hf. destruct (Z.ltb_spec 0 (gfree g)) as [Hpos|Hzero].
+  - assert (Hn : cc_nfree _ gns gfree s ns = Some (gfree g)) by (unfold cc_nfree; rewrite Hf; reflexivity).
+    destruct (take_progress _ _ _ _ Hcpr Hn Hpos) as (s' & x & Ht). rewrite Ht. eexists _, _, _. split; [reflexivity|].
+    unfold cc_take_node, cc_list_step in Ht. rewrite Hf in Ht. destruct (gstep g UAlloc) as [[g' [x'|]]|] eqn:Hs; inversion Ht; subst s' x'.
+    apply (ext_same s); try reflexivity; [exact Hext|]. cbn [cc_with cc_lists]. apply (c_set_keys g' _ g). rewrite (gstep_ns _ _ _ _ Hs). destruct (c_find_in _ _ _ Hf) as [_ E]. rewrite E. exact Hf.
+  - destruct (grow_progress _ _ _ _ _ Hcpr Hext Hf Hwb Hn64) as (s2 & ok & evs & Hgr & Hext2 & Hnode). rewrite Hgr. destruct ok.
+    + destruct (Hnode eq_refl) as (n' & Hn' & Hpos').
+      destruct (grow_refines _ _ _ _ _ _ _ _ Hcpr (defcap_nonneg _ _ Hcpr) Hwb Hgr) as (sp2 & _ & Hc2 & _).
+      destruct (take_progress _ _ _ _ Hc2 Hn' Hpos') as (s' & x & Ht). rewrite Ht. eexists _, _, _. split; [reflexivity|].
+      unfold cc_nfree in Hn'. destruct (c_find ns (cc_lists _ s2)) as [g2|] eqn:Hf2; [|discriminate].
+      unfold cc_take_node, cc_list_step in Ht. rewrite Hf2 in Ht. destruct (gstep g2 UAlloc) as [[g' [x'|]]|] eqn:Hs; inversion Ht; subst s' x'.
+      apply (ext_same s2); try reflexivity; [exact Hext2|]. cbn [cc_with cc_lists]. apply (c_set_keys g' _ g2). rewrite (gstep_ns _ _ _ _ Hs). destruct (c_find_in _ _ _ Hf2) as [_ E]. rewrite E. exact Hf2.
+    + eexists _, _, _. split; [reflexivity|exact Hext2].
+Qed.
+
+Theorem try_alloc_node_progress (s : cpool) sp size : CPR s sp -> Ext s -> 0 < size <= cc_max _ s ->
+  exists s' r evs, cc_try_alloc_node _ gns gfree gstep bkt gusable s size = Some (s', r, evs) /\ Ext s'.
+Proof.
+  intros Hcpr Hext Hsize. pose proof Hext as (_ & _ & _ & H4 & _). destruct (H4 size Hsize) as [Hge Hfind].
+  unfold cc_try_alloc_node.
+  assert (Hg : (size <=? 0) || (cc_max _ s <? size) || (bkt size <? size) = false).
+  { apply orb_false_iff. split; [apply orb_false_iff; split|]; [apply Z.leb_gt|apply Z.ltb_ge|apply Z.ltb_ge]; lia. }
+  rewrite Hg. set (ns := bkt size) in *. destruct (c_find ns (cc_lists _ s)) as [g|] eqn:Hf; [|contradiction].
+  unfold cc_nfree at 1. rewrite Hf.
+  assert (Htake : forall (s1 : cpool) sp1 g1, CPR s1 sp1 -> Ext s1 -> c_find ns (cc_lists _ s1) = Some g1 -> 0 < gfree g1 ->
+            exists s' x, cc_take_node _ gns gstep s1 ns = Some (s', x) /\ Ext s').
+  { intros s1 sp1 g1 Hc1 He1 Hf1 Hp1. assert (Hn : cc_nfree _ gns gfree s1 ns = Some (gfree g1)) by (unfold cc_nfree; rewrite Hf1; reflexivity).
+    destruct (take_progress _ _ _ _ Hc1 Hn Hp1) as (s' & x & Ht). exists s', x. split; [exact Ht|].
+    unfold cc_take_node, cc_list_step in Ht. rewrite Hf1 in Ht. destruct (gstep g1 UAlloc) as [[g' [x'|]]|] eqn:Hs; inversion Ht; subst s' x'.
+    apply (ext_same s1); try reflexivity; [exact He1|]. cbn [cc_with cc_lists]. apply (c_set_keys g' _ g1). rewrite (gstep_ns _ _ _ _ Hs). destruct (c_find_in _ _ _ Hf1) as [_ E]. rewrite E. exact Hf1. }
+  destruct (Z.ltb_spec 0 (gfree g)) as [Hpos|Hzero].
+  - destruct (Htake s sp g Hcpr Hext Hf Hpos) as (s' & x & Ht & He). rewrite Ht. eexists _, _, _. split; [reflexivity|exact He].
+  - pose proof (ext_list_usable _ _ _ _ Hcpr Hext Hf) as Hus. pose proof (ext_defcap_pos _ Hext) as Hdpos.
+    assert (Htr : exists s1 ev1, cc_try_reserve _ gns gstep gusable s ns (cc_defcap _ s) = Some (s1, ev1) /\ map gns (cc_lists _ s1) = map gns (cc_lists _ s) /\
+                   cc_ar _ s1 = cc_ar _ s /\ cc_fence _ s1 = cc_fence _ s /\ cc_max _ s1 = cc_max _ s).
+    { unfold cc_try_reserve. destruct (fs_alloc (cc_fence _ s) (cc_top _ s) (cc_end _ s) (cc_defcap _ s) maxalZ) as [[m top']|] eqn:Hfs.
+      - destruct (fs_reserved _ _ _ _ _ Hcpr (Z.lt_le_incl _ _ Hdpos) Hfs) as [H1 H2].
+        destruct (insert_progress _ sp ns m _ g H1 H2 Hf Hus) as (s1 & ev1 & Hins & _). exists s1, ev1. split; [exact Hins|].
+        destruct (insert_keys _ _ _ _ _ _ Hins) as (Hk & Ha & Hfe & Hm & _). cbn [cc_with cc_lists cc_ar cc_fence cc_max] in *. repeat split; assumption.
+      - destruct (insert_rest_progress _ _ _ _ Hcpr Hf) as (s1 & ev1 & Hir & Hk). exists s1, ev1. split; [exact Hir|]. split; [exact Hk|].
+        destruct (insert_rest_refines _ _ _ _ _ Hcpr Hir) as (sp1 & _ & _ & _ & Ha & Hfe & Hm & _). repeat split; assumption. }
+    destruct Htr as (s1 & ev1 & Htr & Hk & Ha & Hfe & Hm). rewrite Htr.
+    destruct (try_reserve_refines _ _ _ _ _ _ Hcpr (defcap_nonneg _ _ Hcpr) Htr) as (sp1 & _ & Hc1 & _).
+    assert (He1 : Ext s1) by (apply (ext_same s); assumption).
+    destruct (c_find ns (cc_lists _ s1)) as [g1|] eqn:Hf1.
+    2:{ exfalso. assert (Hne : c_find ns (cc_lists _ s) <> None) by (rewrite Hf; discriminate). apply (proj2 (c_find_keys ns _ _ Hk)) in Hne. contradiction. }
+    unfold cc_nfree. rewrite Hf1. destruct (Z.eqb_spec (gfree g1) 0) as [E0|E0].
+    + eexists _, _, _. split; [reflexivity|exact He1].
+    + assert (Hp1 : 0 < gfree g1).
+      { destruct Hc1 as (Hinv1 & HL1 & _). destruct (find_rel _ _ _ _ _ HL1 Hf1) as (l1 & Hfl1 & Hgr1 & _). destruct (GR_list _ _ Hgr1) as (_ & _ & En). cbn in En.
+        destruct (find_list_In _ _ _ Hfl1) as [Hin _]. destruct (capacity_is_exact sp1 l1 Hinv1 Hin) as (_ & H0 & _). lia. }
+      destruct (Htake s1 sp1 g1 Hc1 He1 Hf1 Hp1) as (s' & x & Ht & He). rewrite Ht. eexists _, _, _. split; [reflexivity|exact He].
+Qed.
+
+Lemma dealloc_ext (s : cpool) size bytes p (s' : cpool) r evs : cc_dealloc _ gns gstep bkt s size bytes p = Some (s', r, evs) -> Ext s -> Ext s'.
+Proof.
+  unfold cc_dealloc, cc_list_step. destruct (_ || _); [discriminate|]. destruct (c_find (bkt size) (cc_lists _ s)) as [g|] eqn:Hf; [|discriminate].
+  destruct (gstep g _) as [[g' res]|] eqn:Hs; [|discriminate]. intros H Hext. inversion H; subst s' r evs.
+  apply (ext_same s); try reflexivity; [exact Hext|]. cbn [cc_with cc_lists]. apply (c_set_keys g' _ g). rewrite (gstep_ns _ _ _ _ Hs). destruct (c_find_in _ _ _ Hf) as [_ E]. rewrite E. exact Hf.
+Qed.
+
+(* histories of node requests and releases: every request of a supported size is described, whatever the block source answers
+   (fresh aligned blocks of the size asked for, below 2^64) and wherever it fails; releases are of memory that is out *)
+Fixpoint node_history_ok (s : cpool) (sp : ast) (os : list coll_op) : Prop :=
+  match os with
+  | [] => True
+  | o :: tl =>
+      match o with
+      | CAllocNode size answer => 0 < size <= cc_max _ s /\ (forall addr, answer = Some addr -> CWB sp addr (ar_next (cc_ar _ s))) /\ ar_next (cc_ar _ s) < 2^64
+      | CTryAllocNode size => 0 < size <= cc_max _ s
+      | CDealloc size bytes p => cc_dealloc _ gns gstep bkt s size bytes p <> None
+      | _ => False
+      end /\
+      forall s' r evs sp', cc_step _ gns gfree gstep bkt gusable s o = Some (s', r, evs) -> acc_op sp (cc_spec_op bkt o) evs r = Some sp' -> node_history_ok s' sp' tl
+  end.
+
+Theorem node_history_progress : forall os (s : cpool) sp, CPR s sp -> Ext s -> node_history_ok s sp os ->
+  exists s' tr sp', cc_run _ gns gfree gstep bkt gusable s os = Some (s', tr) /\ run sp tr = Some sp' /\ CPR s' sp' /\ Ext s'.
+Proof.
+  induction os as [|o tl IH]; intros s sp Hcpr Hext Hok.
+  - exists s, [], sp. split; [reflexivity|]. split; [reflexivity|]. split; assumption.
+  - destruct Hok as [Ho Hnext].
+    assert (Hstep : exists s1 r evs, cc_step _ gns gfree gstep bkt gusable s o = Some (s1, r, evs) /\ Ext s1 /\ coll_answer_ok s sp o).
+    { destruct o as [size answer|size|size bytes a1 a2|size bytes|size bytes p]; cbn [cc_step coll_answer_ok]; try contradiction.
+      - destruct Ho as (Hs & Hwb & Hn). destruct (alloc_node_progress _ _ _ _ Hcpr Hext Hs Hwb Hn) as (s1 & r & evs & H1 & H2). exists s1, r, evs. split; [exact H1|]. split; [exact H2|exact Hwb].
+      - destruct (try_alloc_node_progress _ _ _ Hcpr Hext Ho) as (s1 & r & evs & H1 & H2). exists s1, r, evs. split; [exact H1|]. split; [exact H2|exact I].
+      - destruct (cc_dealloc _ gns gstep bkt s size bytes p) as [[[s1 r] evs]|] eqn:Hd; [|contradiction]. exists s1, r, evs. split; [reflexivity|]. split; [exact (dealloc_ext _ _ _ _ _ _ _ Hd Hext)|exact I]. }
+    destruct Hstep as (s1 & r & evs & Hst & Hext1 & Hans). destruct (coll_step_refines _ _ _ _ _ _ Hcpr Hans Hst) as (sp1 & Hacc & Hc1).
+    destruct (IH s1 sp1 Hc1 Hext1 (Hnext _ _ _ _ Hst Hacc)) as (s' & tr & sp' & Hrun & Hr & Hc' & He').
+    exists s', ((cc_spec_op bkt o, evs, r) :: tr), sp'. cbn [cc_run run]. rewrite Hst, Hrun, Hacc. split; [reflexivity|]. split; [exact Hr|]. split; assumption.
+Qed.
+
+(* the constructor establishes Ext *)
+Theorem construct_ext mk nlists k fence max bs flsize flalign answer (s : cpool) evs :
+  cc_construct _ gusable mk nlists k fence max bs flsize flalign answer = Some (s, true, evs) ->
+  0 < max -> 0 <= bs < 2^64 -> 0 <= fence ->
+  (forall m, Forall (fun g => gns g <= max) (mk m) /\ (1 <= length (mk m))%nat /\
+             forall size, 0 < size <= max -> size <= bkt size /\ c_find (bkt size) (mk m) <> None) ->
+  Ext s.
+Proof.
+  intros Hc Hmax Hbs Hfence Hmk. unfold cc_construct, cc_new_block, astep, ar_init in Hc. cbn [cc_ar ar_cache ar_kind ar_next ar_used] in Hc.
+  destruct chdr_eq as (Eh & Eh16 & Emax).
+  assert (Hshape : exists x m top', s = {| cc_ar := ar_set (ar_init k false bs) [(x, bs)] [] (match k with AGrow => 2 * bs | AFixed => 0 | AConst => bs end);
+                                          cc_top := top'; cc_lists := mk m; cc_fence := fence; cc_max := max |} /\
+                                     (max <=? gusable max (cc_defcap _ {| cc_ar := ar_set (ar_init k false bs) [(x, bs)] [] (match k with AGrow => 2 * bs | AFixed => 0 | AConst => bs end);
+                                          cc_top := top'; cc_lists := mk m; cc_fence := fence; cc_max := max |})) = true).
+  { destruct (match k with AFixed => (bs =? 0) | _ => false end) eqn:Hfix.
+    { exfalso. assert (E : exists s0 e0, Some (s, true, evs) = Some (s0, false, e0)) by (rewrite <- Hc; destruct k; try discriminate; rewrite Hfix; eexists _, _; reflexivity).
+      destruct E as (s0 & e0 & E). inversion E. }
+    destruct answer as [x|].
+    2:{ exfalso. assert (E : exists s0 e0, Some (s, true, evs) = Some (s0, false, e0)) by (rewrite <- Hc; destruct k; try rewrite Hfix; eexists _, _; reflexivity).
+        destruct E as (s0 & e0 & E). inversion E. }
+    set (a' := ar_set (ar_init k false bs) [(x, bs)] [] (match k with AGrow => 2 * bs | AFixed => 0 | AConst => bs end)).
+    assert (Hc' : Some (s, true, evs) =
+       match fs_alloc fence (b_mem (x, bs)) (b_end (x, bs)) (Z.of_nat nlists * flsize) flalign with
+       | Some (m, top') => Some ({| cc_ar := a'; cc_top := top'; cc_lists := mk m; cc_fence := fence; cc_max := max |},
+                                 max <=? gusable max (cc_defcap _ {| cc_ar := a'; cc_top := top'; cc_lists := mk m; cc_fence := fence; cc_max := max |}),
+                                 [EUp (b_mem (x, bs) - hdrZ) (b_usable (x, bs) + hdrZ)] ++ [EResv m (Z.of_nat nlists * flsize)])
+       | None => None end).
+    { rewrite <- Hc. destruct k; try rewrite Hfix; reflexivity. }
+    destruct (fs_alloc fence (b_mem (x, bs)) (b_end (x, bs)) (Z.of_nat nlists * flsize) flalign) as [[m top']|]; [|discriminate].
+    inversion Hc' as [[E1 E2 E3]]. exists x, m, top'. split; [reflexivity|]. symmetry. exact E2. }
+  destruct Hshape as (x & m & top' & -> & Hflag). apply Z.leb_le in Hflag. destruct (Hmk m) as (Hall & Hlen & Hb).
+  unfold Ext. cbn [cc_lists cc_max cc_ar ar_set ar_kind ar_next ar_used ar_init].
+  split; [exact Hall|]. split; [exact Hmax|]. split.
+  { split; [exact Hflag|]. unfold cc_defcap, cc_overhead. cbn [cc_ar cc_lists cc_fence ar_set ar_used]. unfold b_usable. cbn [snd]. rewrite Emax, Eh16.
+    set (n := Z.of_nat (length (mk m))). assert (1 <= n) by (unfold n; lia). set (ov := if fence =? 0 then 0 else 2 * fence + 16).
+    assert (0 <= ov) by (unfold ov; destruct (Z.eqb_spec fence 0); lia).
+    destruct (Z.ltb_spec ov (bs - 16)); [|rewrite Zdiv_0_l; lia]. assert ((bs - 16 - ov) / n <= bs - 16 - ov) by (apply Z.div_le_upper_bound; nia). lia. }
+  split; [exact Hb|]. split; [exact Hlen|].
+  destruct k; [intros b rest E; inversion E; subst; cbn [snd]; lia|reflexivity|intros b rest E; inversion E; subst; cbn [snd]; lia].
+Qed.
+
 End CollProofs.
